@@ -187,7 +187,66 @@ def structured():
     return cases
 
 
+def exchange_expiry(ctx):
+    """Token exchange leaves the SUBJECT token's lifetime alone: past the expires_in it was issued with, the subject
+    token is refused everywhere, however often it was exchanged in the meantime (oracle on the real endpoints; token
+    exchange is not an operation of Model/Session.v)."""
+    import drv_C05
+    for oidc in (False, True):
+        for other_client in (False, True):
+            old = sess.FIXED_AUTHZ
+            sess.FIXED_AUTHZ = drv_C05.EXCH_AUTHZ
+            try:
+                rs = sess.RealSession(oidc=oidc, jwt_access=False)
+            finally:
+                sess.FIXED_AUTHZ = old
+            try:
+                c = "client_2"
+                o = rs.run(("authz", "diana", c, ["openid", "email", "offline_access"]))
+                if o[0] != "ok":
+                    continue
+                rs.run(("tparse", c, ("tok", o[1][0]), "same"))
+                p = rs.run(("proc", len(rs.parsed) - 1, None))
+                if p[0] != "ok":
+                    continue
+                at = p[1]["access_token"]
+                issued = rs.clock.now
+                life = 600          # expires_in of access tokens in the harness configuration
+                rec = {"flow": "exchange-expiry", "oidc": oidc, "exchanged_by_other_client": other_client, "steps": []}
+                holder = "client_1" if other_client else c
+                for dt in (200, 300):       # exchanged twice while alive: at t=200 and t=500
+                    rs.run(("tick", dt))
+                    body = {"grant_type": drv_C05.TE, "subject_token": rs.tokens[at], "subject_token_type": drv_C05.TT + "access_token"}
+                    if other_client:
+                        body["audience"] = holder
+                    resp, err = drv_C05.token_call(rs, holder, body)
+                    rs.find_new_grants()
+                    rs.harvest()
+                    rec["steps"].append(["exchange@%d" % (rs.clock.now - issued), bool(resp)])
+                    ctx.count("exchange-expiry:exchange:" + ("ok" if resp else "refused"))
+                for dt in (101, 99, 300):   # t=601, 700, 1000: past the subject token's own lifetime
+                    rs.run(("tick", dt))
+                    age = rs.clock.now - issued
+                    it = rs.run(("introspect", c, ("tok", at)))
+                    rec["steps"].append(["introspect@%d" % age, it[0]])
+                    if it[0] == "active":
+                        ctx.violation("dead-token-active", "introspection reports an access token active %d s after it was issued with a lifetime of %d s (it had been exchanged)" % (age, life), rec)
+                    if oidc:
+                        ui = rs.run(("userinfo", ("tok", at)))
+                        rec["steps"].append(["userinfo@%d" % age, ui[0]])
+                        if ui[0] == "ok":
+                            ctx.violation("dead-token-honoured", "userinfo honours an access token %d s after it was issued with a lifetime of %d s (it had been exchanged)" % (age, life), rec)
+                    body = {"grant_type": drv_C05.TE, "subject_token": rs.tokens[at], "subject_token_type": drv_C05.TT + "access_token"}
+                    resp, err = drv_C05.token_call(rs, c, body)
+                    if resp:
+                        ctx.violation("dead-token-minted", "an expired access token is accepted as exchange subject %d s after issuance" % age, rec)
+                ctx.case_seen(rec, True)
+            finally:
+                rs.close()
+
+
 def run(ctx):
+    exchange_expiry(ctx)
     def factory():
         live = Liveness(ctx)
         return [live, Isolation(ctx, live)]
